@@ -231,9 +231,27 @@ func VerifC07Multipart() {
 			tp.Close()
 			symx.Cover("pending-root-listed")
 		}
-		// the restore can simply be repeated to completion
-		symx.Assert(restore(db, -1) == nil, "the interrupted restore cannot be repeated")
-		symx.Cover("repeated")
+		if symx.Cfg("cont", 0) == 1 && prev && version == pv+1 {
+			// continued operation instead of a repeated restore: the node gives the checkpoint up and reaches the same
+			// version by executing blocks on top of the earlier version, which produces the same root
+			tc := mkvs.NewWithRoot(nil, db, r1)
+			for _, e := range c1 {
+				symx.Assert(tc.Remove(c12Ctx, e.k) == nil, "Remove failed")
+			}
+			for _, e := range contents {
+				symx.Assert(tc.Insert(c12Ctx, e.k, e.v) == nil, "Insert failed")
+			}
+			_, hc, err := tc.Commit(c12Ctx, c12Ns, version)
+			symx.Assert(err == nil, "after an interrupted restore the version cannot be committed normally")
+			tc.Close()
+			symx.Assert(hc == root.Hash, "same contents, different root")
+			symx.Assert(db.Finalize([]node.Root{root}) == nil, "after an interrupted restore the normally committed version cannot be finalized")
+			symx.Cover("continued")
+		} else {
+			// the restore can simply be repeated to completion
+			symx.Assert(restore(db, -1) == nil, "the interrupted restore cannot be repeated")
+			symx.Cover("repeated")
+		}
 	}
 	symx.Assert(db.HasRoot(root), "restored root not present after the restore completed")
 	c07CheckRoot(db, root, contents, probe, "after the restore completed")
